@@ -303,13 +303,12 @@ class DescriptorTransaction(_TransactionBase):
         proc = TransactionResult()
         if self.descriptor_updates:
             # need to know all to be deleted, to be created and to be updated descriptors
-            to_be_deleted_handles = [tr_item.old.Handle for tr_item in self.descriptor_updates.values()
-                                     if tr_item.new is None and tr_item.old is not None]
             to_be_created_handles = [tr_item.new.Handle for tr_item in self.descriptor_updates.values()
                                      if tr_item.old is None and tr_item.new is not None]
             to_be_updated_handles = [tr_item.new.Handle for tr_item in self.descriptor_updates.values()
                                      if tr_item.old is not None and tr_item.new is not None]
-            self._check_consistency(to_be_created_handles)  # raises before anything is changed
+            # handles of all descriptors that will be gone (complete subtrees); raises before anything is changed
+            deleted_handles = self._check_consistency(to_be_created_handles)
             self._mdib.mdib_version = self.new_mdib_version
             # Remark 1:
             # handling only updated states here: If a descriptor is created, it can be assumed that the
@@ -342,6 +341,8 @@ class DescriptorTransaction(_TransactionBase):
                     self._update_corresponding_state(new_descriptor)
                 elif new_descriptor is None:
                     # this is a delete operation
+                    if orig_descriptor.Handle not in self._mdib.descriptions.handle:
+                        continue  # already deleted (and reported) as part of a subtree deleted in this transaction
                     self._logger.debug(  # noqa: PLE1205
                         'transaction_manager: rm descriptor Handle={}, DescriptorVersion={}',
                         orig_descriptor.Handle, orig_descriptor.DescriptorVersion)
@@ -350,7 +351,7 @@ class DescriptorTransaction(_TransactionBase):
                     proc.descr_deleted.extend([d.mk_copy() for d in all_descriptors])
                     # increment DescriptorVersion if a child descriptor is added or deleted.
                     if orig_descriptor.parent_handle is not None \
-                            and orig_descriptor.parent_handle not in to_be_deleted_handles \
+                            and orig_descriptor.parent_handle not in deleted_handles \
                             and orig_descriptor.parent_handle not in to_be_updated_handles:
                         # only update parent if it is not also deleted or updated in this transaction
                         self._increment_parent_descriptor_version(proc, orig_descriptor)
@@ -374,7 +375,7 @@ class DescriptorTransaction(_TransactionBase):
                 dest_list.extend(updates)
         return proc
 
-    def _check_consistency(self, to_be_created_handles: list[str]):
+    def _check_consistency(self, to_be_created_handles: list[str]) -> set[str]:
         """Raise an ApiUsageError if the transaction would leave descriptors without parent or states without descriptor.
 
         A descriptor cannot be updated, and no child can be added to it, if it is deleted (as part of a subtree)
@@ -397,6 +398,7 @@ class DescriptorTransaction(_TransactionBase):
                         and (parent_handle in deleted_handles or parent_handle not in self._mdib.descriptions.handle):
                     msg = f'Parent {parent_handle} of new descriptor {handle} does not exist or is deleted!'
                     raise ApiUsageError(msg)
+        return deleted_handles
 
     def _update_corresponding_state(self, descriptor_container: AbstractDescriptorProtocol):
         updates_dict = self._get_states_update(descriptor_container)
@@ -440,7 +442,9 @@ class DescriptorTransaction(_TransactionBase):
                                              descriptor_container: AbstractDescriptorProtocol):
         parent_descriptor_container = self._mdib.descriptions.handle.get_one(
             descriptor_container.parent_handle, allow_none=True)
-        if parent_descriptor_container is not None:
+        if parent_descriptor_container is not None \
+                and parent_descriptor_container.Handle not in [d.Handle for d in proc.descr_updated]:
+            # increment and report the parent only once per transaction
             parent_descriptor_container.increment_descriptor_version()
             proc.descr_updated.append(_private_copy(parent_descriptor_container))
             self._update_corresponding_state(parent_descriptor_container)
